@@ -273,11 +273,29 @@ Print Assumptions C18_coinciding_entries.
 (* ... and that route is taken whenever every observation node is a solution node and every observation time a time step *)
 Theorem C18_coinciding_defined :
   forall (Q : quirks) (G : grids) (gs go times tobs : qv) (levels : list qv),
-  q_spline_route Q = false -> g_eq G = false -> g_sol G = Some gs -> g_obs G = Some go ->
+  q_spline_route Q = false -> q_subgrid_route Q = false -> g_eq G = false -> g_sol G = Some gs -> g_obs G = Some go ->
   (forall x, In x go -> In x gs) -> (forall t, In t tobs -> In t times) ->
   exists m, coincide_restriction Q G times tobs levels = Some m.
 Proof. exact coinciding_defined. Qed.
 Print Assumptions C18_coinciding_defined.
+
+(* the minimal repair (fixes/C18_observe_restrict_minimal.diff: equal grids and every requested time a stored level) already
+   gives, on equal grids: all nodes, and at every requested time the stored level; taken whenever every time is found *)
+Theorem C18_coinciding_equal_grids :
+  forall (Q : quirks) (G : grids) (times tobs : qv) (levels : list qv) (m : qm),
+  g_eq G = true -> coincide_restriction Q G times tobs levels = Some m ->
+  length m = length (hd [] levels) /\
+  forall a j t, (a < length (hd [] levels))%nat -> nth_error tobs j = Some t ->
+    exists b, nth_error times b = Some t /\ nth j (nth a m []) 0 = nth a (nth b levels []) 0.
+Proof. exact coinciding_entries_equal. Qed.
+Print Assumptions C18_coinciding_equal_grids.
+
+Theorem C18_coinciding_equal_grids_defined :
+  forall (Q : quirks) (G : grids) (times tobs : qv) (levels : list qv),
+  q_spline_route Q = false -> g_eq G = true -> (forall t, In t tobs -> In t times) ->
+  exists m, coincide_restriction Q G times tobs levels = Some m.
+Proof. exact coinciding_defined_equal. Qed.
+Print Assumptions C18_coinciding_equal_grids_defined.
 
 (* The law assumed of RectBivariateSpline(grid_sol, time_steps, solution)(grid_obs, time_obs): a tensor product of two
    one-dimensional interpolants, each exact at its nodes (exact1).  Consequences: a coinciding space node => the row is the
